@@ -86,7 +86,31 @@ impl Debug for AbsoluteTime {
 
 #[cfg(not(test))]
 pub fn now_monotonic() -> std::time::Instant {
+    #[cfg(feature = "verif")]
+    if let Some(time) = verif_mock_time::get() {
+        return time;
+    }
     std::time::Instant::now()
+}
+
+/// Verification hook: lets an in-process harness control the monotonic time
+/// (the `cfg(test)` mock below is not available to other crates).
+#[cfg(feature = "verif")]
+pub mod verif_mock_time {
+    use std::cell::Cell;
+    use std::time::Instant;
+
+    thread_local! {
+        static MOCK_TIME: Cell<Option<Instant>> = const { Cell::new(None) };
+    }
+
+    pub fn set(time: Option<Instant>) {
+        MOCK_TIME.with(|cell| cell.set(time));
+    }
+
+    pub fn get() -> Option<Instant> {
+        MOCK_TIME.with(|cell| cell.get())
+    }
 }
 
 use crate::common::parser2::{CharParser, ParseError, all_consuming, parse_u32};
